@@ -381,6 +381,15 @@ class Parser:
         return None
 
     def parse(self, rule: str, call_invalid_rules: bool = False) -> ast.AST | Any | None:
+        try:
+            return self._parse(rule, call_invalid_rules)
+        except RecursionError:
+            # every nesting level of the input costs a few dozen frames of this recursive-descent parser: an input nested
+            # deeper than the interpreter's recursion limit allows is refused like any other input that cannot be parsed
+            tok = self._tokenizer.diagnose()
+            raise self._build_syntax_error("too many nested constructs (recursion limit reached)", tok.start, tok.end) from None
+
+    def _parse(self, rule: str, call_invalid_rules: bool = False) -> ast.AST | Any | None:
         self.call_invalid_rules = call_invalid_rules
         res = getattr(self, rule)()
 
